@@ -91,7 +91,7 @@ func (rec *writeRecorder) invariantValue(u *Unit, fr *Frame, v ssa.Value, modKey
 		return true
 	case *ssa.Parameter:
 		if fr == rec.frame || fr.depth <= rec.frame.depth {
-			return !rec.isCallback
+			return true
 		}
 		// parameter of an inlined callee: the corresponding argument in the caller
 		if fr.parent == nil || fr.argVals == nil {
@@ -123,6 +123,9 @@ func (rec *writeRecorder) invariantValue(u *Unit, fr *Frame, v ssa.Value, modKey
 	}
 	// defined outside the loop region?
 	if fr == rec.frame && rec.body != nil && !rec.body[in.Block()] {
+		return true
+	}
+	if rec.isCallback && fr.depth <= rec.frame.depth {
 		return true
 	}
 	if fr.depth < rec.frame.depth {
@@ -246,7 +249,7 @@ func (fr *Frame) checkGuardedLoad(x *ssa.UnOp, c cell, st *State) {
 	base := fr.val(fa.X)
 	lock := fr.lockAddrOf(g, base)
 	// remember where the loaded reference came from, for later operations on it (map ops, method calls)
-	fr.guardedVals[x] = guardedVal{g: g, lock: lock, base: base}
+	fr.u.guardedTerm[fr.regs[x].S] = guardedVal{g: g, lock: lock, base: base}
 	fr.u.oblige(fr, "guard", x.Pos(), fmt.Sprintf("read of %s.%s needs %s", g.decl.Type, g.decl.Field, g.decl.Lock), st.pc,
 		Or(Ge(Select(st.held, lock, SInt), IntLit(1)), fr.isFreshObject(base)), false)
 }
@@ -273,7 +276,7 @@ type guardedVal struct {
 }
 
 func (fr *Frame) checkGuardedMapOp(m ssa.Value, write bool, st *State, pos token.Pos) {
-	gv, ok := fr.guardedVals[m]
+	gv, ok := fr.u.guardedTerm[fr.val(m).S]
 	if !ok {
 		return
 	}
@@ -288,7 +291,7 @@ func (fr *Frame) checkGuardedMapOp(m ssa.Value, write bool, st *State, pos token
 }
 
 func (fr *Frame) checkGuardedInvoke(c *ssa.CallCommon, st *State, pos token.Pos) {
-	gv, ok := fr.guardedVals[c.Value]
+	gv, ok := fr.u.guardedTerm[fr.val(c.Value).S]
 	if !ok {
 		return
 	}
@@ -318,6 +321,23 @@ func (fr *Frame) assumeFieldInv(st *State, x *ssa.UnOp, c cell) {
 			fr.u.assume(True, Neq(ITag(v), IntLit(0)))
 		}
 		fr.u.typeInvUsed[c.key]++
+	}
+	if sh.elemsNonNil[c.key] {
+		v := fr.regs[x]
+		if v.Sort == SSlice {
+			if sl, ok := c.typ.Underlying().(*types.Slice); ok && !isComposite(sl.Elem()) {
+				et := sl.Elem()
+				vs := fr.u.w.sortOf(et)
+				h := fr.u.heap(st, fr.u.w.typeHeapKey(et), vs)
+				i := Sym("i!", SInt)
+				el := Select(h, Elem(SPtr(v), i), vs)
+				fr.u.assume(True, Forall([]Term{i}, Implies(And(Le(IntLit(0), i), Lt(i, SLen(v))), Neq(el, NilLoc)), []Term{el}))
+				fr.u.typeInvUsed[c.key+"[*]"]++
+			}
+		}
+	}
+	if sh.mapValsNonNil[c.key] {
+		fr.u.termOrigin[fr.regs[x].S] = c.key
 	}
 	// element of a slice loaded from an elems_nonnil field
 	if ia, ok := x.X.(*ssa.IndexAddr); ok {
